@@ -278,6 +278,9 @@ func (cr *caseRun) opConnect(short bool, buffered bool) *shClient {
 }
 
 func (cr *caseRun) opConnectTmo(tmo int64, buffered bool) *shClient {
+	if maxMs := int64(cr.opts.MaxMsgTimeout / time.Millisecond); tmo > maxMs {
+		tmo = maxMs // IDENTIFY refuses a msg_timeout above --max-msg-timeout
+	}
 	cr.nextK++
 	k := cr.nextK
 	if tmo > longTimeoutMs {
@@ -547,7 +550,17 @@ func (cr *caseRun) opScan(t, c int, inflight bool, ahead time.Duration) {
 }
 
 func (cr *caseRun) doScan(t, c int, inflight bool, ahead time.Duration) {
-	at := time.Now().Add(ahead).UnixNano()
+	cr.doScanAt(t, c, inflight, time.Now().Add(ahead).UnixNano(), ahead.String())
+}
+
+// scanAt: a scan at an absolute clock reading, with the channel paused around it (see opScan)
+func (cr *caseRun) scanAt(t, c int, inflight bool, at int64) {
+	cr.opPauseChan(t, c, true)
+	cr.doScanAt(t, c, inflight, at, "abs")
+	cr.opPauseChan(t, c, false)
+}
+
+func (cr *caseRun) doScanAt(t, c int, inflight bool, at int64, label string) {
 	bi, bd, ok := cr.d.VerifHeld(tname(t), cname(c))
 	resp := "ROk"
 	var expired []string
@@ -578,7 +591,7 @@ func (cr *caseRun) doScan(t, c int, inflight bool, ahead time.Duration) {
 	if inflight {
 		name = "OScanInFlight"
 	}
-	cr.tag(fmt.Sprintf("scan:%s:+%s", strings.TrimPrefix(name, "OScan"), ahead))
+	cr.tag(fmt.Sprintf("scan:%s:+%s", strings.TrimPrefix(name, "OScan"), label))
 	if len(expired) > 0 {
 		cr.tag("scan-requeued-something")
 		cr.nontriv = true
